@@ -23,7 +23,12 @@ class C18(PropBase):
 
     def generate(self, seed, tier, idx):
         rng = Rng(seed)
-        proj = gen.gen_project(rng, n_units=rng.randint(1, 5), inline=0.2, same_basename=0.15, max_atoms=4)
+        focus = rng.chance(0.2)   # header-sharing projects with small edits: duplicate filters meet cache hits
+        if focus:
+            proj = gen.gen_project(rng, n_units=rng.randint(2, 3), inline=0.1, max_atoms=2, headers=1.0, wp=rng.chance(0.3), cfg_blocks=0.1)
+        else:
+            proj = gen.gen_project(rng, n_units=rng.randint(1, 5), inline=0.2, same_basename=0.15, max_atoms=4)
+        ekinds = ["token", "drop_include", "comment", "touch", "drop_include", "header", "inline_hdr"] if focus else None
         opts = {"--enable": rng.choice(["--enable=style,warning,performance,portability", "--enable=all", "--enable=style,information", ""])}
         if not opts["--enable"]:
             del opts["--enable"]
@@ -34,7 +39,7 @@ class C18(PropBase):
         cur_tree = dict(tree)
         for _ in range(rng.randint(1, 4)):
             for _e in range(rng.randint(1, 2) if rng.chance(0.85) else 0):
-                ed = gen.gen_edit(rng, cur_tree, units, langs)
+                ed = gen.gen_edit(rng, cur_tree, units, langs, kinds=ekinds)
                 if ed is None:
                     continue
                 desc, sett, units, langs = ed
